@@ -659,7 +659,20 @@ pub fn gen_compound(rng: &mut Rng, out: &mut String) {
                 4 => format!("-{}n+{}", rng.range(0, 3), rng.range(0, 6)),
                 5 => format!("{}n-{}", rng.range(0, 5), rng.range(0, 5)),
                 6 => "n".to_string(),
-                _ => "2147483647n+2147483647".to_string(),
+                _ => rng
+                    .pick(&[
+                        "2147483647n+2147483647",
+                        "2147483648n+1",
+                        "n-2147483647",
+                        "-2147483647n-2147483647",
+                        "n+2147483648",
+                        "99999999999999999999n+1",
+                        "4294967297",
+                        "-n+3",
+                        "+3n - 2",
+                        "0n+0",
+                    ])
+                    .to_string(),
             };
             out.push_str(&format!(":nth-child({})", arg));
         }
